@@ -360,6 +360,12 @@ class _Expr(SymEval):
                     raise NotSymbolic(f"{f.attr} of symbolic values")
                 return getattr(np, f.attr)(*args, **kw)
             if f.attr in ("array", "asarray") and args and isinstance(args[0], np.ndarray):
+                # np.asarray hands back the very same array (no dtype change asked, or the same dtype): the result
+                # shares storage with the argument; np.array copies unless copy=False
+                dt = kw.get("dtype", args[1] if len(args) > 1 else None)
+                same_dtype = dt is None or args[0].dtype == object or np.dtype(dt) == args[0].dtype
+                if (f.attr == "asarray" or kw.get("copy") is False) and same_dtype:
+                    return args[0]
                 return args[0].copy()
             if f.attr == "concatenate":
                 seq = [np.asarray(x) if not isinstance(x, np.ndarray) else x for x in args[0]]
